@@ -7,7 +7,7 @@ from .. import constfold
 from ..absint import Const, Executor, NeedAtom, Obj, Tup, explore, vkey
 from ..core import Unrecognised
 from ..lin import Lin
-from ..repo import chain, params, src, strip_docstring, calls, walk_no_nested
+from ..repo import chain, params, src, strip_docstring, calls, walk_no_nested, nsrc, assigning_stmts
 from ..tables import Bool, Sign, check_table, SKIP
 
 RS, QS, RE_, QE = 1, 2, 4, 8
@@ -485,9 +485,17 @@ def r5_cell(repo, report):
     ok = tail == ["diag_entry = column[i]", "column[i].cost = cost", "column[i].origin = origin", "column[i].score = score"]
     report.ob("C01.R5", "DP cell: write-back", ok, facts={"statements": tail}, expected="diag_entry = column[i] (old value) before column[i] is overwritten with (cost, origin, score)", loc=repo.loc(cell_loop))
     # character comparison uses reference[i-1] and query[j-1]
-    ce = [s for s in cell_loop.body if isinstance(s, ast.If) and src(s.test) == "compare_ascii"]
-    ok = len(ce) == 1 and src(ce[0].body[0]) == "characters_equal = s1[i - 1] == s2[j - 1]" and src(ce[0].orelse[0]) == "characters_equal = s1[i - 1] & s2[j - 1] != 0"
-    report.ob("C01.R5", "DP cell: character comparison", ok, facts={"if": src(ce[0])[:160] if ce else None}, expected="ASCII: s1[i-1] == s2[j-1]; encoded: (s1[i-1] & s2[j-1]) != 0", loc=repo.loc(cell_loop))
+    ce = assigning_stmts(cell_loop, "characters_equal")
+    ok = False
+    tblc = {}
+    if len(ce) == 1:
+        rws = explore(repo, [ce[0]], {"compare_ascii": Obj("ASCII"), "s1": Obj("S1", nonnull=True), "s2": Obj("S2", nonnull=True), "i": Lin.atom("I"), "j": Lin.atom("J")}, inline=False)
+        for r_ in rws:
+            a_ = r_.valuation.get("truthy:ASCII")
+            other = sorted(k for k in r_.valuation if k != "truthy:ASCII")
+            tblc.setdefault(str(a_), set()).update(other)
+        ok = tblc.get("True") == {"sign:S1[I-1]-S2[J-1]"} and tblc.get("False") == {"sign:(S1[I-1]&S2[J-1])"}
+    report.ob("C01.R5", "DP cell: character comparison", ok, facts={"decides_on": {k: sorted(v) for k, v in tblc.items()}}, expected="ASCII: s1[i-1] == s2[j-1]; encoded: (s1[i-1] & s2[j-1]) != 0", loc=repo.loc(cell_loop))
     # siblings: edit_environment and the Python reference implementations use the same cascade
     ee = repo.func("_align", "edit_environment")
     casc = [n for n in ast.walk(ee) if isinstance(n, ast.If) and src(n.test) == "diag <= left and diag <= up"]
@@ -526,7 +534,7 @@ def r6_comparers(repo, report):
     loops = [x for x in ast.walk(loc_) if isinstance(x, ast.For)]
     ok = ok and len(loops) == 2 and all(src(l.iter) == "range(length)" for l in loops)
     tests = [src(x.test) for l in loops for x in l.body if isinstance(x, ast.If)]
-    ok = ok and tests == ["r_ptr[i] != q_ptr[i]", "r_ptr[i] & q_ptr[i] == 0"]
+    ok = ok and tests == [nsrc("r_ptr[i] != q_ptr[i]"), nsrc("r_ptr[i] & q_ptr[i] == 0")]
     report.ob("C01.R6", "PrefixComparer.locate: error count", ok, facts={"length": src(ln[0].value) if ln else None, "tests": tests}, expected="length = min(m, n); errors = number of positions i < length with differing (resp. non-intersecting) characters", loc=repo.loc(loc_))
     c, pi = repo.need_method("PrefixComparer", "__init__")
     mk = [src(n.value) for n in ast.walk(pi) if isinstance(n, ast.Assign) and chain(n.targets[0]) == "self.max_k"]
@@ -577,9 +585,19 @@ def r7_tuple(repo, report):
     report.floor("C01.R7", "match constructions", n, 7)
     # anywhere: 5' iff the match starts at read position 0
     c, am = repo.need_method("AnywhereAdapter", "match_to")
-    ifs = [s for s in ast.walk(am) if isinstance(s, ast.If) and "alignment[2]" in src(s.test)]
-    ok = len(ifs) == 1 and src(ifs[0].test) == "alignment[2] == 0" and "RemoveBeforeMatch" in src(ifs[0].body[0]) and "RemoveAfterMatch" in src(ifs[0].orelse[0])
-    report.ob("C01.R7", "AnywhereAdapter: 5' match iff rstart == 0", ok, facts={"test": src(ifs[0].test) if ifs else None}, expected="alignment[2] (rstart) == 0 -> RemoveBeforeMatch, else RemoveAfterMatch", loc=repo.loc(am))
+    st_ = [x for x in ast.walk(am) if isinstance(x, (ast.If, ast.Assign)) and "RemoveBeforeMatch" in src(x) and "RemoveAfterMatch" in src(x) and not any(isinstance(y, (ast.If,)) and y is not x and "RemoveBeforeMatch" in src(y) and "RemoveAfterMatch" in src(y) for y in ast.walk(x))]
+    ok = False
+    tbl7 = {}
+    if len(st_) == 1:
+        def hk(ex, node, env):
+            if chain(node.func) in ("RemoveBeforeMatch", "RemoveAfterMatch"):
+                return Obj(chain(node.func), nonnull=True)
+            return None
+        rws = explore(repo, [st_[0]], {"alignment": Obj("AL", nonnull=True), "self": Obj("self", nonnull=True), "sequence": Obj("SEQ")}, call_hook=hk, inline=False)
+        for r_ in rws:
+            tbl7[str(r_.valuation.get("sign:AL[2]"))] = vkey(r_.env.get("match")) if "match" in r_.env else (vkey(r_.exit[1]) if r_.exit[0] == "return" else None)
+        ok = tbl7 == {"0": "RemoveBeforeMatch", "-1": "RemoveAfterMatch", "1": "RemoveAfterMatch"}
+    report.ob("C01.R7", "AnywhereAdapter: 5' match iff rstart == 0", ok, facts={"table": tbl7}, expected="alignment[2] (rstart) == 0 -> RemoveBeforeMatch, else RemoveAfterMatch", loc=repo.loc(am))
     # rightmost mirror
     c, rm = repo.need_method("RightmostFrontAdapter", "match_to")
     unp = [n for n in ast.walk(rm) if isinstance(n, ast.Assign) and isinstance(n.targets[0], ast.Tuple) and chain(n.value) == "alignment"]
@@ -653,27 +671,49 @@ def r8_tables(repo, report):
     c, pl = repo.need_method("PrefixComparer", "locate")
 
     def tables_in(fn_):
-        """ordered (condition, table) pairs of the if/elif/else chain that translates a string"""
-        out = []
-        for s in ast.walk(fn_):
-            if isinstance(s, ast.If) and src(s.test) in ("self.wildcard_ref", "self.wildcard_query") and any("translate(" in src(x) or "encode(" in src(x) for x in s.body):
-                cur = s
-                while True:
-                    t = [x for x in ast.walk(ast.Module(body=cur.body, type_ignores=[])) if isinstance(x, ast.Call) and chain(x.func) == "translate"]
-                    out.append((src(cur.test), src(t[0].args[1]) if t else "raw"))
-                    if cur.orelse and isinstance(cur.orelse[0], ast.If):
-                        cur = cur.orelse[0]
-                    else:
-                        t = [x for x in ast.walk(ast.Module(body=cur.orelse, type_ignores=[])) if isinstance(x, ast.Call) and chain(x.func) == "translate"]
-                        out.append(("else", src(t[0].args[1]) if t else "raw"))
-                        break
-                break
-        return out
+        """{(wildcard_ref, wildcard_query) truth -> table used to translate}, decided by exploring the statement
+        that chooses the table (shape-insensitive: if/elif chain, conditional expression, negated tests...)"""
+        cands = [x for x in ast.walk(fn_) if isinstance(x, (ast.If, ast.Assign, ast.AnnAssign)) and "wildcard" in src(x)
+                 and sum(1 for c_ in ast.walk(x) if isinstance(c_, ast.Call) and chain(c_.func) == "translate") >= 2]
+        tops = [x for x in cands if not any(y is not x and x in list(ast.walk(y)) for y in cands)]
+        if len(tops) != 1:
+            return None
 
-    ref_want = [("self.wildcard_ref", "IUPAC_TABLE"), ("self.wildcard_query", "ACGT_TABLE")]
-    qry_want = [("self.wildcard_query", "IUPAC_TABLE"), ("self.wildcard_ref", "ACGT_TABLE"), ("else", "UPPER_TABLE")]
+        def hk(ex, node, env):
+            f = chain(node.func)
+            if f == "translate" and len(node.args) == 2:
+                return Obj("T:" + src(node.args[1]), nonnull=True)
+            if f and f.endswith(".encode"):
+                return Obj("T:raw", nonnull=True)
+            return None
+
+        rws = explore(repo, [tops[0]], {"self": Obj("self", nonnull=True), "reference": Obj("STR", nonnull=True), "query": Obj("STR", nonnull=True)},
+                      call_hook=hk, inline=False, feasibility=False)
+        out = {}
+        for r_ in rws:
+            if r_.exit[0] == "raise":
+                continue
+            wr, wq = r_.valuation.get("truthy:self.wildcard_ref"), r_.valuation.get("truthy:self.wildcard_query")
+            vals = {vkey(v) for k, v in r_.env.items() if isinstance(v, Obj) and str(v.k).startswith("T:")}
+            vals |= {e[2] for e in r_.effects if e[0] == "store" and str(e[2]).startswith("T:")}
+            for wr_ in ([wr] if wr is not None else [True, False]):
+                for wq_ in ([wq] if wq is not None else [True, False]):
+                    out.setdefault(f"ref={int(wr_)},query={int(wq_)}", set()).update(vals)
+        return {k: sorted(v) for k, v in sorted(out.items())}
+
+    ref_want = {"ref=1,query=0": ["T:IUPAC_TABLE"], "ref=1,query=1": ["T:IUPAC_TABLE"], "ref=0,query=1": ["T:ACGT_TABLE"]}
+    qry_want = {"ref=0,query=1": ["T:IUPAC_TABLE"], "ref=1,query=1": ["T:IUPAC_TABLE"], "ref=1,query=0": ["T:ACGT_TABLE"], "ref=0,query=0": ["T:UPPER_TABLE"]}
     t1, t2, t3, t4 = tables_in(sr), tables_in(lo), tables_in(pi), tables_in(pl)
-    ok = t1[:2] == ref_want and t2 == qry_want and t3[:2] == ref_want and t3[2] == ("else", "UPPER_TABLE") and t4 == qry_want
+
+    def agrees(t, want, rest=None):
+        if t is None:
+            return False
+        w = dict(want)
+        if rest is not None:
+            w["ref=0,query=0"] = rest
+        return all(t.get(k) == v for k, v in w.items()) and set(t) == {"ref=0,query=0", "ref=0,query=1", "ref=1,query=0", "ref=1,query=1"}
+
+    ok = agrees(t1, ref_want, ["T:raw"]) and agrees(t2, qry_want) and agrees(t3, ref_want, ["T:UPPER_TABLE"]) and agrees(t4, qry_want)
     report.ob("C01.R8", "reference/query table choice agrees in Aligner and comparers", ok, facts={"Aligner._set_reference": t1, "Aligner.locate": t2, "PrefixComparer.__init__": t3, "PrefixComparer.locate": t4},
               expected={"reference": "wildcard_ref -> IUPAC; elif wildcard_query -> ACGT; else raw/upper", "query": "wildcard_query -> IUPAC; elif wildcard_ref -> ACGT; else UPPER"}, loc=repo.loc(lo))
     consts = {n.target.id if isinstance(n, ast.AnnAssign) else None: src(n.value) for n in repo.module("_align").tree.body if isinstance(n, ast.AnnAssign) and n.value is not None}
